@@ -457,6 +457,13 @@ def execute(case):
         out['extra']['c_backend_not_run'] = 1
         out['log'] = 'no-c'
         return out
+    if text.startswith('\ufeff'):
+        # a text that itself begins with U+FEFF already carries its byte order mark: encoding it "with BOM"
+        # would deliver two (a different document), so such a case says nothing about C07 (only the
+        # shrinker can produce it; generated texts never start with U+FEFF)
+        out['extra']['text_starts_with_bom_not_a_case'] = 1
+        out['log'] = 'bom-text'
+        return out
     logparts = []
     tdig = observe.digest(text)
 
